@@ -9,7 +9,12 @@
 //! * a transaction that is not mined and whose expiry is unknown (all compact-scanned
 //!   transactions) counts as unexpired while `first observed height + 40 >= tip + 1`;
 //! * balance(account, pool) = sum of known notes whose receiving tx is unexpired and that have no
-//!   known, unexpired spender; `uneconomic` = the part with value <= 5000 (MARGINAL_FEE).
+//!   known, unexpired spender; `uneconomic` = the part with value <= 5000 (MARGINAL_FEE);
+//! * a transaction that a reorganisation removed may be mined again (same txid) at another place: its outputs
+//!   are the SAME wallet notes (one row per txid and output index) with a new position, height and (Sapling)
+//!   nullifier, so the newly scanned copy supersedes the old one; the transaction is mined iff some copy's
+//!   block is currently scanned, and its "first observed height" is the lowest height at which a copy was
+//!   scanned while it was relevant to the wallet (`min_observed_height = MIN(..)` in the wallet).
 
 use std::collections::{BTreeMap, BTreeSet};
 
@@ -27,6 +32,10 @@ pub struct Ledger {
     pub known_notes: BTreeSet<usize>,
     /// (note id, spender block id, spender txid)
     pub links: BTreeSet<(usize, usize, [u8; 32])>,
+    /// txid -> lowest height at which the transaction was scanned while relevant to the wallet
+    pub first_seen: BTreeMap<[u8; 32], u32>,
+    /// txid -> blocks in which the transaction has been scanned (several only for re-mined transactions)
+    pub tx_blocks: BTreeMap<[u8; 32], BTreeSet<usize>>,
 }
 
 #[derive(Clone, Debug, PartialEq, Eq, PartialOrd, Ord)]
@@ -56,15 +65,26 @@ impl Ledger {
 
     /// Records that heights [from, from+len) of the current branch were scanned.
     pub fn scan(&mut self, chain: &Chain, from: u32, len: u32) {
-        let mut new_blocks = vec![];
         for h in from..from + len {
             if let Some(b) = chain.block_at(h) {
-                if self.scanned.insert(b.id) {
-                    new_blocks.push(b.id);
-                }
+                self.scanned.insert(b.id);
                 for tx in &b.txs {
+                    self.tx_blocks.entry(tx.txid).or_default().insert(b.id);
                     for n in &tx.recv {
-                        if matches!(chain.notes[*n].who, Who::Wallet(_)) {
+                        let note = &chain.notes[*n];
+                        if matches!(note.who, Who::Wallet(_)) {
+                            // a re-mined copy of a known note supersedes the old copy (same wallet row)
+                            let key = (note.txid, note.pool, note.out_index);
+                            let older: Vec<usize> =
+                                self.known_notes.iter().copied().filter(|k| *k != *n && (chain.notes[*k].txid, chain.notes[*k].pool, chain.notes[*k].out_index) == key).collect();
+                            for o in older {
+                                self.known_notes.remove(&o);
+                                let moved: Vec<(usize, usize, [u8; 32])> = self.links.iter().filter(|l| l.0 == o).copied().collect();
+                                for l in moved {
+                                    self.links.remove(&l);
+                                    self.links.insert((*n, l.1, l.2));
+                                }
+                            }
                             self.known_notes.insert(*n);
                         }
                     }
@@ -85,6 +105,17 @@ impl Ledger {
                 }
             }
         }
+        // first observation of every transaction that is scanned and relevant to the wallet right now
+        for bid in &self.scanned {
+            let b = &chain.blocks[*bid];
+            for tx in &b.txs {
+                let relevant = tx.recv.iter().any(|n| matches!(chain.notes[*n].who, Who::Wallet(_))) || self.links.iter().any(|(_, sb, t)| sb == bid && *t == tx.txid);
+                if relevant {
+                    let e = self.first_seen.entry(tx.txid).or_insert(b.height);
+                    *e = (*e).min(b.height);
+                }
+            }
+        }
     }
 
     /// Records a rewind: every block above `height` is no longer scanned.
@@ -92,16 +123,22 @@ impl Ledger {
         self.scanned.retain(|b| chain.blocks[*b].height <= height);
     }
 
-    fn unexpired(&self, block_id: usize, chain: &Chain, tip: u32) -> bool {
-        self.scanned.contains(&block_id) || chain.blocks[block_id].height + DEFAULT_TX_EXPIRY_DELTA >= tip + 1
+    /// `tx_unexpired_condition` for the transaction `txid`, one of whose copies is in block `block_id`: mined (some
+    /// copy's block is currently scanned), or first observed at most 40 blocks below the next block.
+    fn unexpired(&self, txid: &[u8; 32], block_id: usize, chain: &Chain, tip: u32) -> bool {
+        if self.scanned.contains(&block_id) || self.tx_blocks.get(txid).is_some_and(|bs| bs.iter().any(|b| self.scanned.contains(b))) {
+            return true;
+        }
+        let seen = self.first_seen.get(txid).copied().unwrap_or(chain.blocks[block_id].height);
+        seen + DEFAULT_TX_EXPIRY_DELTA >= tip + 1
     }
 
     pub fn note_counts(&self, n: usize, chain: &Chain, tip: u32) -> bool {
         let note = &chain.notes[n];
-        if !self.unexpired(note.block_id, chain, tip) {
+        if !self.unexpired(&note.txid, note.block_id, chain, tip) {
             return false;
         }
-        !self.links.iter().any(|(nn, sb, _)| *nn == n && self.unexpired(*sb, chain, tip))
+        !self.links.iter().any(|(nn, sb, t)| *nn == n && self.unexpired(t, *sb, chain, tip))
     }
 
     /// Expected balances per (account index, pool).
@@ -124,10 +161,11 @@ impl Ledger {
 
     /// True iff some known note or known spender is an unexpired orphan (un-mined by a rewind).
     pub fn has_live_orphans(&self, chain: &Chain, tip: u32) -> bool {
+        let mined = |txid: &[u8; 32], b: usize| self.scanned.contains(&b) || self.tx_blocks.get(txid).is_some_and(|bs| bs.iter().any(|x| self.scanned.contains(x)));
         self.known_notes.iter().any(|n| {
-            let b = chain.notes[*n].block_id;
-            !self.scanned.contains(&b) && self.unexpired(b, chain, tip)
-        }) || self.links.iter().any(|(_, sb, _)| !self.scanned.contains(sb) && self.unexpired(*sb, chain, tip))
+            let note = &chain.notes[*n];
+            !mined(&note.txid, note.block_id) && self.unexpired(&note.txid, note.block_id, chain, tip)
+        }) || self.links.iter().any(|(_, sb, t)| !mined(t, *sb) && self.unexpired(t, *sb, chain, tip))
     }
 
     /// Expected rows for MINED notes (their block is currently scanned).
